@@ -51,6 +51,11 @@ EXPLANATION += (
     'compared by gene sequence; chunk windows tile the rows (R-TILE).'
 )
 
+EXPLANATION += (
+    ' Round 3: what a worker derives from the file of the current chunk '
+    'specification is refreshed under a test of that file.'
+)
+
 RULE_TEXT = (
     "one obligation per key of each producer, per required read, per "
     "merge loop, per statistic, per use of the row index")
